@@ -344,6 +344,11 @@ def rejected_op(b, cur, feats, live, kind=None):
                 Padding=1, StrideW=1, StrideH=1, DilationWFactor=1, DilationHFactor=1, FusedActivationFunction=0))))
             outs, tgt = [o], b.net.ops[-1]
     ot = b.t(outs[0])
+    if reason == "per_axis_out" and kind in ("RESHAPE", "SQUEEZE", "EXPAND_DIMS") and ot.scales and rng.random() < 0.85:
+        # a per-axis result on a reshape-like operator dies in the semantic check of the unchanged tree (C13 finding
+        # ValueError@tensor.is_scaling_equal): mostly use a zero point that differs from the input's instead
+        ot.zps = [ot.zps[0] + (1 if ot.zps[0] < 100 else -1)]
+        reason = "quant_mismatch"
     if reason == "per_axis_out" and kind not in ("CONV_2D", "CONV_2D_GROUPS", "CONV_2D_DIL3", "CONV_2D_1x1_ON_1x1", "CONV_2D_NOBIAS", "DEPTHWISE_CONV_2D",
                                                    "DEPTHWISE_CONV_2D_DEPTH1", "TRANSPOSE_CONV", "PAD_CONV"):
         # "Per-axis quantization is only supported for ..." (supported-operator check): the result carries a scale per channel
